@@ -226,7 +226,10 @@ func (w *World) addDirective(p *packages.Package, d *directive) error {
 		}
 		fn := w.findFunc(p.PkgPath, c.Recv, c.Name)
 		if fn == nil {
-			return fmt.Errorf("contract target not found: %s", hdr)
+			// the function the contract was written for no longer exists (removed or renamed): that contract is
+			// undecidable on this tree; the other contracts are still checked
+			w.MissingTargets = append(w.MissingTargets, p.PkgPath+": "+hdr)
+			return nil
 		}
 		c.Fn = fn
 		c.Sig = fn.Signature
@@ -236,13 +239,11 @@ func (w *World) addDirective(p *packages.Package, d *directive) error {
 			real = append(real, prm.Name())
 		}
 		if len(real) != len(c.Params) {
-			return fmt.Errorf("contract header %q has %d params, function has %d", hdr, len(c.Params), len(real))
+			// the signature changed: the contract no longer applies to this function
+			w.MissingTargets = append(w.MissingTargets, fmt.Sprintf("%s: %s (the function now has %d parameters)", p.PkgPath, hdr, len(real)))
+			return nil
 		}
-		for i := range real {
-			if c.Params[i] != real[i] && c.Params[i] != "_" && real[i] != "_" {
-				return fmt.Errorf("contract header %q: parameter %d is %q in the code", hdr, i, real[i])
-			}
-		}
+		// parameters are bound by position; a renamed parameter keeps its contract name in the specification
 		for _, inst := range w.instancesOf(fn) {
 			w.Contracts[inst] = c
 		}
